@@ -126,7 +126,7 @@ func (d *c15Sess) close() { d.s.Stop() }
 
 func TestVerif_C15(t *testing.T) {
 	rep := vk.NewReport(t, "C15", "exploration")
-	rep.Rule = "(a) 2-8 goroutines issue Add/Find/Len on one EventCache (capacity 2-6, 8-24 related events: versions of the same addresses, deletion requests and their targets, duplicates; pairwise distinct created_at so the sequential specification is deterministic); every operation is stamped call/return on one logical clock and the history is checked for linearizability against the retention/query specification with porcupine (timeout => inconclusive); (b) the same through concurrent CacheHandler sessions (EVENT->OK, REQ->events+EOSE); (c) a long stress mix with concurrent listings judged by the store invariants; (e) queries and a publishing session during Restore of a dump larger than the capacity (every answer within capacity; every event acknowledged during the restore, newer than all others, is stored afterwards); (f) dumps of a 600-900 event cache through a slow writer while three sessions replace pinned addresses and delete notes: every dump satisfies the invariants and lists each pinned address exactly once; the race detector watches all of it; verifPoint callbacks inject yields/sleeps between the phases of Add and inside Find; non-trivial = a history with at least one pair of overlapping operations of different clients; distinct = distinct histories (hash of the stamped operation sequence)"
+	rep.Rule = "(a) 2-8 goroutines issue Add/Find/Len on one EventCache (capacity 2-6, 8-24 related events: versions of the same addresses, deletion requests and their targets, duplicates; pairwise distinct created_at so the sequential specification is deterministic); every operation is stamped call/return on one logical clock and the history is checked for linearizability against the retention/query specification with porcupine (timeout => inconclusive); (b) the same through concurrent CacheHandler sessions (EVENT->OK, REQ->events+EOSE); (c) a long stress mix with concurrent listings judged by the store invariants; (e) queries and a publishing session during Restore of a dump larger than the capacity (every answer within capacity; every event acknowledged during the restore, newer than all others, is stored afterwards); (f) dumps of a 600-900 event cache through a slow writer while three sessions replace pinned addresses and delete notes: every dump satisfies the invariants and lists each pinned address exactly once; the race detector watches all of it; verifPoint callbacks inject yields/sleeps between the phases of Add and inside Find; added later: one history in three is query-heavy over two or three fixed filter lists; (g) a deletion request naming 130-530 stored notes inserted while three goroutines list; (h) a session inserting while 2-4 goroutines repeat one query: a query started after Add returned lists the inserted event; non-trivial = a history with at least one pair of overlapping operations of different clients; distinct = distinct histories (hash of the stamped operation sequence)"
 	defer rep.Finish()
 	pc := &pointCtl{sleep: true}
 	mocrelay.SetVerifPoint(pc.fn)
